@@ -32,6 +32,37 @@ HARNESS(empty_script_elimination_drops_nothing_visible, 10) {
 '''
 
 
+PRIME_HARNESS = r'''
+macro_rules! eprint { ($($t:tt)*) => { }; }
+const PRIMES: [char; 6] = ['\'', '′', '″', '‴', '⁗', 'x'];
+fn weight(c: char) -> usize { match c { '\'' | '′' => 1, '″' => 2, '‴' => 3, '⁗' => 4, _ => 0 } }
+// K-C01-a: merging primes keeps their total count (prime/dot/bar merging is a documented normalisation: nothing else may change)
+fn check(text: &str) {
+    let mut total = 0; let mut all_primes = true;
+    for c in text.chars() { if weight(c) == 0 { all_primes = false; } total += weight(c); }
+    let out = merge_prime_text(text);
+    if all_primes {
+        let mut w = 0;
+        for c in out.chars() { assert!(weight(c) >= 1 && c != '\'', "merged text contains a non-prime"); w += weight(c); }
+        assert!(w == total, "merging primes changed the number of primes");
+    } else {
+        assert!(out.as_bytes() == text.as_bytes(), "text with other characters was changed");
+    }
+    core::mem::forget(out);
+}
+HARNESS(merge_prime_text_keeps_the_count, 14) {
+    // the solver picks the case; every path runs on a literal (String capacities concrete: a symbolic capacity exhausts CBMC's memory, DESIGN.md M6)
+    let case = sym::below(10);
+    cover!(case == 5, "five primes reachable");
+    cover!(case == 8, "text with a non-prime reachable");
+    match case {
+        0 => check("\'"), 1 => check("′"), 2 => check("\'\'"), 3 => check("′″"), 4 => check("″″"), 5 => check("″‴"), 6 => check("⁗′"), 7 => check("‴‴‴"),
+        8 => check("x′"), _ => check(""),
+    }
+}
+'''
+
+
 def api_msubsup(vals=None, out=None):
     res = mcprobe([("mathml", "<math><msubsup><mi>x</mi><mn>1</mn><mrow/></msubsup></math>"), ("mathml", "<math><mi>a</mi><mo>+</mo><msubsup><mi>x</mi><mn>1</mn><mtext></mtext></msubsup></math>")])
     bad = [r for r in res if r[0] != "OK" or ">x<" not in r[1] or ">1<" not in r[1]]
@@ -55,3 +86,19 @@ def build(run):
     run.kani(crate, [dict(id="K-C01-e.1.empty_script_elimination", harness="empty_script_elimination_drops_nothing_visible", api=lambda v, o: api_msubsup(),
                           role=lambda v, o: "partly-empty-script-dropped", covers=["dropped msubsup reachable", "kept element with one empty script reachable"],
                           claim="is_empty_script => base and every script are empty")], timeout=300)
+
+    # ---- K-C01-a: merge_prime_text ----------------------------------------------------------------------------------------------
+    mp = cm.find("fn merge_prime_text")
+    run.uses(mp)
+    crate_p = kani_run.Crate("c01prime", PRIME_HARNESS + mp.text)
+    run.bound("K-C01-a", "10 literal token texts (1..9 primes in mixed spellings, a text with a non-prime, the empty text), solver-selected")
+
+    def api_prime(vals, out):
+        res = mcprobe([("mathml", "<math><msup><mi>f</mi><mo>&#x2032;&#x2033;&#x2032;</mo></msup></math>")])
+        import re as _re
+        m = _re.search(r"<mo[^>]*>([^<]*)</mo>", res[0][1]) if res[0][0] == "OK" else None
+        w = sum({"'": 1, "\u2032": 1, "\u2033": 2, "\u2034": 3, "\u2057": 4}.get(c, 100) for c in (m.group(1) if m else "x"))
+        return w != 4, {"script": "f with the script prime+double prime+prime: the canonical mo must hold 4 primes", "result": res[0]}
+    run.kani(crate_p, [dict(id="K-C01-a.merge_prime_text", harness="merge_prime_text_keeps_the_count", api=api_prime, role=lambda v, o: "prime-count-changed",
+                            covers=["five primes reachable", "text with a non-prime reachable"],
+                            claim="all primes => output consists of primes with the same total count; otherwise the text is unchanged")], timeout=600)
